@@ -159,6 +159,13 @@ func runDebug(cmd, repo string, args []string) {
 		}
 		fmt.Println("tracked:", m.in.tracked, "stacks:", m.in.stackFld, "build:", m.in.buildFld, "handler:", m.in.handler != nil, "carried:", len(m.carried))
 		multi := len(args) > 3 && args[3] == "multi"
+		m.in.precisePrev = os.Getenv("OJGCHECK_NOEVENTS") != ""
+		m.in.buildKinds = os.Getenv("OJGCHECK_NOEVENTS") != "" || os.Getenv("OJGCHECK_SELF") != ""
+		if os.Getenv("OJGCHECK_SELF") != "" {
+			m.in.selfEvents = true
+			m.in.noScratch = true
+			m.prepareNilTested()
+		}
 		cfg := map[string]Val{"OnlyOne": vConstBool(!multi)}
 		starts, notes, err := m.Starts(args[2], cfg)
 		fmt.Println("starts:", len(starts), notes, err)
@@ -170,7 +177,17 @@ func runDebug(cmd, repo string, args []string) {
 			}
 		}
 		st := &ExploreStats{}
-		dis, und := Explore(m, sel, multi, st, 16, os.Getenv("OJGCHECK_NOREF") != "", os.Getenv("OJGCHECK_NOEVENTS") != "")
+		m.in.precisePrev = os.Getenv("OJGCHECK_NOEVENTS") != ""
+		m.in.buildKinds = os.Getenv("OJGCHECK_NOEVENTS") != "" || os.Getenv("OJGCHECK_SELF") != ""
+		var dis map[string]Disagreement
+		var und []string
+		if os.Getenv("OJGCHECK_SELF") != "" {
+			m.in.selfEvents = true
+			m.in.noScratch = true
+			dis, und = ExploreSelf(m, sel, multi, st, 16)
+		} else {
+			dis, und = Explore(m, sel, multi, st, 16, os.Getenv("OJGCHECK_NOREF") != "", os.Getenv("OJGCHECK_NOEVENTS") != "")
+		}
 		fmt.Printf("states=%d transitions=%d armruns=%d rounds=%d modes=%d in %.2fs\n", st.States, st.Transitions, st.ArmRuns, st.Rounds, len(st.Modes), time.Since(t0).Seconds())
 		var keys []string
 		for k := range dis {
